@@ -38,10 +38,16 @@ def run_in_fork(fn, args=(), timeout=60.0, quiet=True, stderr_path=None):
     r, w = os.pipe()
     sys.stdout.flush()
     sys.stderr.flush()
+    # CPython re-seeds the global `random` instance from OS entropy in every forked child
+    # (os.register_at_fork in random.py).  A simulated process must instead look like a fresh interpreter
+    # after import (outrank seeds `random` at import time), so the parent's state is restored in the child.
+    import random as _random
+    _rstate = _random.getstate()
     pid = os.fork()
     if pid == 0:
         code = 0
         try:
+            _random.setstate(_rstate)
             os.close(r)
             global _EMIT_FD
             _EMIT_FD = w
